@@ -591,6 +591,9 @@ func (vc *VC) havocLoop(li *loopInfo, h *Heap) {
 			}
 			switch x := in.(type) {
 			case *ssa.Store:
+				if perIterationLocal(x.Addr, li) {
+					continue // a non-escaping local declared in the loop body: a new object every iteration
+				}
 				ls := vc.L.Leaves(x.Val.Type())
 				a, ok := addrOf(x.Addr)
 				if !ok {
